@@ -264,7 +264,7 @@ def run(tier):
     rc = readerconf.run(c, quick, variant="plain")
     npaths = 0
     for x in rc:
-        if x["what"].startswith(("duplicate", "wrap-unknown")):
+        if x["what"].replace("lsc: ", "").startswith(("duplicate", "wrap-unknown")) and not x["what"].endswith(":lsc"):
             continue      # the reader's paths carry no index for elements that occur once in a well-formed document (declaration, system, name ...)
         for (kind, p) in x["real"]:
             if kind == "path":
